@@ -62,14 +62,20 @@ pub const VEC_OPS: &[&str] = &[
 pub const VEC4_OPS: &[&str] = &["vec4.limits", "vec4.flags", "vec4.trim", "vec4.is_equal", "vec4.assert_equal", "vec4.is_equal_to_fixed"];
 pub const M4: usize = 12;
 pub const A4: usize = 4;
+/// ... and with capacity 9 and alignment 3 (an alignment that is not a power of two)
+pub const VEC3_OPS: &[&str] = &["vec3.limits", "vec3.flags", "vec3.trim", "vec3.is_equal"];
+pub const M3: usize = 9;
+pub const A3: usize = 3;
 
 pub fn vec_ops() -> Vec<String> {
-    VEC_OPS.iter().chain(VEC4_OPS).map(|s| s.to_string()).collect()
+    VEC_OPS.iter().chain(VEC4_OPS).chain(VEC3_OPS).map(|s| s.to_string()).collect()
 }
 
 fn cap(c: &OpCase) -> (usize, usize) {
     if c.op.starts_with("vec4.") {
         (M4, A4)
+    } else if c.op.starts_with("vec3.") {
+        (M3, A3)
     } else {
         (M, A)
     }
@@ -78,7 +84,7 @@ fn cap(c: &OpCase) -> (usize, usize) {
 /// p = [len1, chosen filler 1, len2, chosen filler 2, n (trim)];
 /// ins = payload 1, filler 1, payload 2, filler 2.
 pub fn gen_case(rng: &mut Prng, op: &str) -> OpCase {
-    let cm = if op.starts_with("vec4.") { M4 } else { M };
+    let cm = if op.starts_with("vec4.") { M4 } else if op.starts_with("vec3.") { M3 } else { M };
     let len1 = match rng.below(4) {
         0 => *rng.pick(&[0usize, 1, cm - 1, cm]),
         _ => rng.usize(cm + 1),
@@ -235,6 +241,7 @@ fn lims(cap: usize, align: usize, len: usize) -> (Fq, Fq) {
     let r = match (cap, align) {
         (M, A) => get_lims::<M, A>(len),
         (M4, A4) => get_lims::<M4, A4>(len),
+        (M3, A3) => get_lims::<M3, A3>(len),
         (L, A) => get_lims::<L, A>(len),
         _ => unreachable!("vector shape"),
     };
@@ -265,13 +272,17 @@ pub fn check(c: &OpCase, publics: &[Fq]) -> Result<bool, String> {
             vec![s, e]
         }
         "flags" => {
-            let r = if cm == M { get_lims::<M, A>(p1.len()) } else { get_lims::<M4, A4>(p1.len()) };
+            let r = match cm {
+                M => get_lims::<M, A>(p1.len()),
+                M4 => get_lims::<M4, A4>(p1.len()),
+                _ => get_lims::<M3, A3>(p1.len()),
+            };
             (0..cm).map(|i| bit(!r.contains(&i))).collect()
         }
-        "trim" if cm == M4 => {
+        "trim" if cm != M => {
             // limits, then the trimmed vector compared with its expected payload and with an altered one
             let n = c.p[4] as usize;
-            let (s, e) = lims(M4, A4, p1.len() - n);
+            let (s, e) = lims(cm, ca, p1.len() - n);
             vec![s, e, bit(true), bit(false)]
         }
         "trim" => {
@@ -327,17 +338,17 @@ fn altered(p: &[Fq]) -> Vec<Fq> {
 }
 
 #[derive(Clone)]
-pub struct Vec4Circuit {
+pub struct VecGCircuit<const MM: usize, const AA: usize> {
     pub case: OpCase,
     pub known: bool,
 }
 
-impl Circuit<F> for Vec4Circuit {
+impl<const MM: usize, const AA: usize> Circuit<F> for VecGCircuit<MM, AA> {
     type Config = <VectorGadget<F> as FromScratch<F>>::Config;
     type FloorPlanner = SimpleFloorPlanner;
     type Params = ();
     fn without_witnesses(&self) -> Self {
-        Vec4Circuit { case: self.case.clone(), known: false }
+        VecGCircuit { case: self.case.clone(), known: false }
     }
     fn configure(meta: &mut ConstraintSystem<F>) -> Self::Config {
         let committed = meta.instance_column();
@@ -350,7 +361,7 @@ impl Circuit<F> for Vec4Circuit {
         let c = &self.case;
         let (p1, f1, p2, f2) = parts(c);
         let val = |v: Vec<Fq>| if self.known { Value::known(v) } else { Value::unknown() };
-        let x: AssignedVector<F, AssignedNative<F>, M4, A4> = vg.assign_with_filler(&mut l, val(p1.clone()), f1)?;
+        let x: AssignedVector<F, AssignedNative<F>, MM, AA> = vg.assign_with_filler(&mut l, val(p1.clone()), f1)?;
         let publish_bit = |l: &mut _, b: &AssignedBit<F>| -> Result<(), Error> {
             let n: AssignedNative<F> = b.clone().into();
             ng.constrain_as_public_input(l, &n)
@@ -385,7 +396,7 @@ impl Circuit<F> for Vec4Circuit {
                 publish_bit(&mut l, &b)?;
             }
             name => {
-                let y: AssignedVector<F, AssignedNative<F>, M4, A4> = vg.assign_with_filler(&mut l, val(p2), f2)?;
+                let y: AssignedVector<F, AssignedNative<F>, MM, AA> = vg.assign_with_filler(&mut l, val(p2), f2)?;
                 match name {
                     "is_equal" => {
                         let b = vg.is_equal(&mut l, &x, &y)?;
@@ -399,3 +410,6 @@ impl Circuit<F> for Vec4Circuit {
         ng.load_from_scratch(&mut l)
     }
 }
+
+pub type Vec4Circuit = VecGCircuit<M4, A4>;
+pub type Vec3Circuit = VecGCircuit<M3, A3>;
